@@ -21,6 +21,10 @@ def potential_cases(strength):
     pts = [[2.0, 0.25, 0.5], [-1.5, 1.0, -0.75], [0.125, 0.25, 3.0], [0.25, 0.25, 0.125]]
     cases = [
         ("tet", ("P", 1, {}), "scalar", None, pts),
+        # continuous P1 is not its own localised space: the normal multipliers must survive make_localised_space
+        ("tet", ("P", 1, {"swapped_normals": [1]}), "scalar", None, pts),
+        ("islands3", ("P", 1, {"segments": [1], "swapped_normals": [1], "include_boundary_dofs": True}), "scalar", None,
+         pts[:3]),
         ("tet", ("DP", 0, {"segments": [1], "swapped_normals": [1]}), "scalar", None, pts),
         ("strip3", ("P", 1, {"segments": [1], "include_boundary_dofs": True}), "scalar", None, pts[:3]),
         ("fan4", ("DP", 1, {}), "scalar", 0.75 + 0.5j, pts[:2]),
@@ -103,6 +107,85 @@ def green_case(api, grid, a, b, points_in, points_out, orders, segment_mode, res
                               "orders %s" % (seq, list(orders))})
 
 
+def flipped_grid(api, name, levels, flip_domains):
+    """closed grid whose faces with the given domain indices are stored inward (two vertex indices exchanged)"""
+    V, E, D = bc.mesh(name)
+    E = E.copy()
+    for e in range(E.shape[1]):
+        if int(D[e]) in flip_domains:
+            E[1, e], E[2, e] = E[2, e], E[1, e]
+    g = api.Grid(V, E, D)
+    for _ in range(levels):
+        g = g.refine()
+    return g
+
+
+def green_swapped(api, grid, flip_domains, a, b, points_in, points_out, orders, segment_mode, results, fails, gname):
+    """Green's formula with continuous P1 (not its own localised space) and swapped_normals correcting the inward faces;
+    plus the direct kernel sum of the double-layer potential with the SPACE's normal multipliers."""
+    from bempp_cl.core import numba_kernels as nk
+    from bempp_cl.api.integration.triangle_gauss import rule
+    P = api.operators.potential.laplace
+    pts = np.array(points_in + points_out, dtype=np.float64).T
+    exact = np.array([np.dot(a, p) + b for p in points_in] + [0.0] * len(points_out))
+    scale = max(abs(np.dot(a, v) + b) for v in grid.vertices.T)
+    sw = sorted(flip_domains)
+    segs = [[s_] for s_ in sorted(set(int(d) for d in grid.domain_indices))] if segment_mode else [None]
+    seq, ksum = [], []
+    for o in orders:
+        api.GLOBAL_PARAMETERS.quadrature.regular = o
+        qp, qw = rule(o)
+        total = np.zeros(pts.shape[1])
+        worst_k = 0.0
+        for seg in segs:
+            kw = {"swapped_normals": sw}
+            if seg is not None:
+                kw["segments"] = seg
+            p1 = api.function_space(grid, "P", 1, include_boundary_dofs=True, **kw) if seg is not None else \
+                api.function_space(grid, "P", 1, **kw)
+            dp0 = api.function_space(grid, "DP", 0, **kw)
+            neff = grid.normals * dp0.normal_multipliers.reshape(-1, 1)
+            cl = np.zeros(dp0.global_dof_count)
+            for e in dp0.support_elements:
+                cl[dp0.local2global[e, 0]] = np.dot(a, neff[e])
+            cu = np.zeros(p1.global_dof_count)
+            for e in p1.support_elements:
+                for i in range(3):
+                    if p1.local_multipliers[e, i] != 0:
+                        cu[p1.local2global[e, i]] = np.dot(a, grid.vertices[:, grid.elements[i, e]]) + b
+            dl = P.double_layer(p1, pts).evaluate(api.GridFunction(p1, coefficients=cu))[0]
+            sl = P.single_layer(dp0, pts).evaluate(api.GridFunction(dp0, coefficients=cl))[0]
+            total += sl - dl
+            # direct kernel sum with the space's own normal multipliers
+            direct = np.zeros(pts.shape[1])
+            gd = grid.data("double")
+            for e in p1.support_elements:
+                y = gd.local2global(e, qp)
+                vals = p1.evaluate(e, qp)[0]
+                uh = sum(vals[i] * cu[p1.local2global[e, i]] for i in range(3))
+                nrm = np.repeat((grid.normals[e] * p1.normal_multipliers[e]).reshape(3, 1), len(qw), axis=1)
+                for t in range(pts.shape[1]):
+                    kv = nk.laplace_double_layer_regular(pts[:, t].copy(), y, np.zeros(3), nrm, np.zeros(0))
+                    direct[t] += np.sum(kv * qw * grid.integration_elements[e] * uh)
+            worst_k = max(worst_k, float(np.max(np.abs(direct - dl)) / max(np.max(np.abs(direct)), 1e-300)))
+        seq.append(float(np.max(np.abs(total - exact)) / scale))
+        ksum.append(worst_k)
+    key = "%s/swapped-P1/%s" % (gname, "segments" if segment_mode else "whole")
+    results[key] = seq
+    results[key + "/kernel_sum"] = ksum
+    results["n"] += 2 * len(seq) * pts.shape[1]
+    data = {"grid": gname, "flipped_domains": sw, "a": list(a), "b": b, "orders": list(orders), "rel_err": seq,
+            "kernel_sum_rel_err": ksum, "segments": segment_mode}
+    if not (seq[-1] <= 1e-6):
+        fails.append({"signature": "C02:green-representation:swapped-normals-P1", "data": data,
+                      "what": "with swapped_normals correcting inward faces, SLP[du/dn] - DLP[u] (P1 density) does not "
+                              "reproduce u inside / 0 outside: errors %s" % seq})
+    if not (max(ksum) <= 1e-10):
+        fails.append({"signature": "C02:double-layer-potential:kernel-sum:swapped-normals", "data": data,
+                      "what": "double-layer potential of a %s density differs from the kernel sum with the space's normal "
+                              "multipliers by %s" % ("P1 segment" if segment_mode else "continuous P1", ksum)})
+
+
 def run_search(cfg):
     import bempp_cl.api as api
     strength = cfg.get("strength", "quick")
@@ -130,6 +213,13 @@ def run_search(cfg):
             results["diameter/" + gname] = diam
             green_case(api, grid, a, b, pin, pout, orders, False, results, fails, "python-body", gname)
             green_case(api, grid, a, b, pin, pout, orders, True, results, fails, "python-body", gname)
+        # inward-stored faces corrected by swapped_normals; continuous P1 (localised space is a different object)
+        sw_orders = (8, 12)
+        g1 = flipped_grid(api, "cube12", 2, {1})
+        green_swapped(api, g1, {1}, [1.0, -0.5, 0.25], 0.5, [[0.5, 0.5, 0.5]], [[2.0, 0.5, 0.25]], sw_orders, False,
+                      results, fails, "cube12-flipped1")
+        green_swapped(api, g1, {1}, [1.0, -0.5, 0.25], 0.5, [[0.5, 0.5, 0.5]], [[2.0, 0.5, 0.25]], sw_orders, True,
+                      results, fails, "cube12-flipped1")
     if strength == "thorough":
         grid = refined("cube12", 2)
         green_case(api, grid, [1.0, -0.5, 0.25], 0.5, [[0.5, 0.5, 0.5]], [[2.0, 0.5, 0.25]], orders, False, results,
